@@ -56,40 +56,22 @@ Print Assumptions C16_unwrap_regions.
    the security context := an arbitrary unwrap function), ARE the model functions the theorems above are about. ---- *)
 From V Require Import Prelude.PyAst Prelude.PyWorld gen.F_client Model.RpcDispatch Model.Conversation Flow.World_client Proofs.Flow_client_seal.
 
-Theorem C16_flow_auth_unwrap : forall wrap (unwrap : unwrap_fn) pfuel sch fuel ap h b t sg (sign : bool),
-  run (WC wrap unwrap pfuel sch) fuel k_flow_auth_unwrap [VO (OAuthP ap); VB h; VB b; VB t; VB sg; vb sign]
+Theorem C16_flow_auth_unwrap : forall wrap (unwrap : unwrap_fn) sch fuel ap h b t sg (sign : bool),
+  run (WC wrap unwrap sch) fuel k_flow_auth_unwrap [VO (OAuthP ap); VB h; VB b; VB t; VB sg; vb sign]
   = (let* d := unwrap h b t sg sign in Ok (VB d)).
 Proof. exact flow_auth_unwrap. Qed.
 Print Assumptions C16_flow_auth_unwrap.
 
-(* _process_response(self, response, pdu_header, Response, encrypt_offsets) is: Seal.unseal, PDU.unpack, the class checks, the
-   rejection of an unsealed reply (process_response_src, Proofs/Flow_client_seal.v) *)
-Theorem C16_flow_process_response : forall wrap (unwrap : unwrap_fn) pfuel sch fuel c resp hdr offs,
-  run (WC wrap unwrap pfuel sch) fuel k_flow_process_response [VO (OSelf c); VB resp; VO (OHdr hdr); VI c_PT_RESPONSE; offv offs]
-  = (let* p := process_response_src unwrap pfuel (is_some (cl_auth c)) offs (cl_sign c) hdr resp in Ok (VO (OPdu p))).
+(* _process_response(self, response, pdu_header, Response, encrypt_offsets) IS Seal.process_response, the function of C16_sealed_only,
+   for every client, reply, header and offsets (Model/Seal.v decodes every registered PDU type before the class checks, as the source does) *)
+Theorem C16_flow_process_response : forall wrap (unwrap : unwrap_fn) sch fuel c resp hdr offs,
+  run (WC wrap unwrap sch) fuel k_flow_process_response [VO (OSelf c); VB resp; VO (OHdr hdr); VI c_PT_RESPONSE; offv offs]
+  = (let* r := process_response unwrap (is_some (cl_auth c)) offs (cl_sign c) hdr resp in Ok (VO (OPdu (PResponse r)))).
 Proof. exact flow_process_response. Qed.
 Print Assumptions C16_flow_process_response.
 
-(* ... which is Seal.process_response (the function of C16_sealed_only) unless the reply is a PDU of another registered type whose
-   decoding fails with an exception other than ValueError: Model/Seal.v refuses such PDUs without decoding them *)
-Theorem C16_flow_process_response_model : forall (unwrap : unwrap_fn) pfuel auth offs sign hdr resp,
-  (forall clear body h st e, unseal unwrap auth offs sign hdr resp = Ok clear -> pdu_split clear = Ok (body, h, st) ->
-     h_packet_type h <> c_PT_RESPONSE -> registry_lookup (h_packet_type h) = Ok (h_packet_type h) ->
-     pdu_unpack pfuel clear = Raise e -> e = ValueError) ->
-  process_response_src unwrap pfuel auth offs sign hdr resp = (let* r := process_response unwrap auth offs sign hdr resp in Ok (PResponse r)).
-Proof. exact process_response_src_model. Qed.
-Print Assumptions C16_flow_process_response_model.
-(* the hypothesis is met, e.g., by every reply that is a RESPONSE PDU; one concrete reply (28 octets, stub 01 02 03 04) *)
-Example C16_flow_process_response_model_example : forall (unwrap : unwrap_fn) pfuel sign hdr,
-  let resp := [5; 0; 2; 3; 16; 0; 0; 0; 28; 0; 0; 0; 1; 0; 0; 0; 4; 0; 0; 0; 0; 0; 0; 0; 1; 2; 3; 4] in
-  (forall clear body h st e, unseal unwrap false None sign hdr resp = Ok clear -> pdu_split clear = Ok (body, h, st) ->
-     h_packet_type h <> c_PT_RESPONSE -> registry_lookup (h_packet_type h) = Ok (h_packet_type h) ->
-     pdu_unpack pfuel clear = Raise e -> e = ValueError) /\
-  exists r, process_response unwrap false None sign hdr resp = Ok r /\ rs_stub_data r = [1; 2; 3; 4].
-Proof.
-  intros unwrap pfuel sign hdr resp. split.
-  - intros clear body h st e Hu Hs Hne _ _. exfalso. apply Hne.
-    unfold unseal, k_unwrap_guard in Hu. cbn in Hu. apply Ok_inj in Hu. subst clear.
-    vm_compute in Hs. apply Ok_inj in Hs. inversion Hs. reflexivity.
-  - eexists. split; [vm_compute; reflexivity|reflexivity].
-Qed.
+(* a concrete accepted reply (28 octets, stub 01 02 03 04) on an anonymous connection *)
+Example C16_flow_process_response_example : forall (unwrap : unwrap_fn) sign hdr,
+  exists r, process_response unwrap false None sign hdr
+              [5; 0; 2; 3; 16; 0; 0; 0; 28; 0; 0; 0; 1; 0; 0; 0; 4; 0; 0; 0; 0; 0; 0; 0; 1; 2; 3; 4] = Ok r /\ rs_stub_data r = [1; 2; 3; 4].
+Proof. intros. eexists. split; [vm_compute; reflexivity|reflexivity]. Qed.
